@@ -364,7 +364,7 @@ func (e *Contend) Run() {
 		return
 	}
 	if e.db.A != nil {
-		w := Walk(e.db.N.VerifStore(), nitroInsCmp(o.KV), nitro.ItemSize, 1<<30)
+		w := Walk(e.db.N.VerifStore(), e.db.InsCmp(), nitro.ItemSize, 1<<30)
 		if got, want := e.db.A.LiveCount(), 2*w.Level0Linked+2; got != want {
 			e.problem("C17", "idle-unfreed", "idle database: %d allocator blocks live, structure accounts for %d", got, want)
 		}
@@ -396,7 +396,7 @@ func (e *Contend) checkpoint(where string, present int) {
 	if last := e.db.N.GetLastGCSn(); last != cur-1 {
 		e.problem("C06", "gc-frontier", "%s: all snapshots closed and GC() ran at quiescence but GetLastGCSn()=%d, currSn=%d", where, last, cur)
 	}
-	w := WalkLive(e.db.N.VerifStore(), nitroInsCmp(e.o.KV), nitro.ItemSize, 1<<20, e.liveFn())
+	w := WalkLive(e.db.N.VerifStore(), e.db.InsCmp(), nitro.ItemSize, 1<<20, e.liveFn())
 	for _, p := range w.NotLive {
 		e.problem("C04", "freed-while-linked", "%s: %s", where, p)
 	}
